@@ -16,7 +16,8 @@ def replay(prop, path):
     lib.OUT_REPLAY = True
     if rr['kind'] == 'harness':
         b = lib.build(rr['harness'], rr['flavour'])
-        agg = lib.run_cases(b, rr['mode'], rr['seed'], 1, opts=rr.get('opts'), env=rr.get('env'), start=rr['idx'], nproc=1, chunk=1, wrapper=rr.get('wrapper') or None, timeout=3600)
+        agg = lib.run_cases(b, rr['mode'], rr['seed'], 1, opts=rr.get('opts'), env=rr.get('env'), start=rr['idx'], nproc=1, chunk=1, wrapper=rr.get('wrapper') or None,
+                            timeout=360 if str(rec.get('key', '')).startswith('hang:') else 3600)   # a recorded hang: three strikes of 6 / 2 / 2 minutes on the single case
         verdict.absorb(agg, functional=(prop != 'C07'))
     elif rr['kind'] == 'mpi':
         import mpirun
